@@ -34,7 +34,7 @@ from . import c16
 from .c05 import subst
 from .common import as_difference, is_sum
 
-MUTATION_TARGETS = {'holopy/core/process/img_proc.py': ['normalize', 'detrend', 'zero_filter', 'subimage', 'bg_correct'], 'holopy/core/io/io.py': ['push', 'mean', 'std'], 'holopy/core/prior.py': ['make_center_priors']}
+MUTATION_TARGETS = {'holopy/core/process/img_proc.py': ['normalize', 'detrend', 'zero_filter', 'subimage', 'bg_correct'], 'holopy/core/io/io.py': ['push', 'mean', 'std'], 'holopy/core/prior.py': ['make_center_priors'], 'holopy/core/process/centerfinder.py': ['center_find']}
 
 LEVEL = 'other'
 META = dict(
